@@ -11,7 +11,7 @@ class C17(Prop):
     table_groups = ['ChainPow']
     theorems = ['BtcVerif.C17.' + t for t in (
         'decode_spec', 'toCompact_canonical', 'compact_signbit_clear', 'decode_encode', 'encode_decode',
-        'pow_iff', 'pow_reject_is_validation')]
+        'pow_iff', 'pow_iff_target', 'pow_reject_is_validation', 'pow_short_hash', 'nbytes_is_python')]
     anchors = [('bitcoin/core/serialize.py', 'uint256_from_compact'),
                ('bitcoin/core/serialize.py', 'compact_from_uint256'),
                ('bitcoin/core/serialize.py', 'uint256_from_str'),
@@ -87,6 +87,15 @@ class C17(Prop):
                 hs |= {t2, max(t2 - 1, 0)}
                 for h in sorted(hs):
                     yield mk('c17.powChain', chain, h.to_bytes(32, 'little').hex(), b, tag='pow')
+        # (c') hashes that are not 32 bytes (outside the property's domain; keeps the model's explicit
+        #      struct.error branch tied): shorter -> struct.error once the target is admissible, longer -> s[:32]
+        for chain in CHAINS:
+            for b in (0x1d00ffff, 0x207fffff, 0x1c800001, 0):
+                for hb in (b'', b'\x00' * 31, b'\xff' * 31, b'\x00' * 33, b'\x01' * 40):
+                    i += 1
+                    if i % nshards != shard:
+                        continue
+                    yield mk('c17.powChain', chain, hb.hex(), b, tag='pow-hashlen')
         # (d) the same compact values under the chains in the opposite order (regtest first): an answer
         #     memoised under one chain must not survive SelectParams()
         probe = sorted({self.S.compact_from_uint256(v) for lim in limits.values()
